@@ -4,7 +4,8 @@
    [matchQ]: pattern instance relation incl. echo's documented quirk (a parameter ending the pattern
    may absorb the rest). *)
 From Coq Require Import List Arith Bool Ascii String Permutation.
-From Echo.Router Require Import Spec2 Fuel Refine Insert InsProof Walk Live Toks Build Sound Complete Allow Top.
+From Echo.Router Require Import Spec2 Fuel Refine Insert InsProof Walk Live Toks Build Sound Complete Allow Top Methods.
+From Echo Require Import Gen.Src_methods.
 Import ListNotations.
 
 (* a path no registered pattern (of any method, RouteNotFound included) matches: 404 *)
@@ -34,3 +35,15 @@ Theorem C03_allow_truthful : forall rs m m' p b r', wf_table rs -> m' <> NF ->
   is_found (dispatch (build rs) m' p).
 Proof. exact instance_allow_truthful. Qed.
 Print Assumptions C03_allow_truthful.
+
+(* the four hand-written method <-> slot tables of router.go (regenerated from the source on every run):
+   each of the 11 built-in methods is read from the slot it is written to, that slot makes the node a handler
+   node and Allow advertises it under the method's own name; custom methods go through the per-name map in
+   all places; the not-found pseudo method is neither a handler slot nor ever advertised *)
+Theorem C03_tables_agree : tables_ok = true.
+Proof. exact tables_agree. Qed.
+Print Assumptions C03_tables_agree.
+
+Theorem C03_method_agrees : forall m, In m standard_methods -> method_ok m = true.
+Proof. exact method_agrees. Qed.
+Print Assumptions C03_method_agrees.
